@@ -578,6 +578,39 @@ def check_function(chk, f, want_destroy, rules, only=("W", "D", "C"), db=None):
                     chk.violation("SLOTS-C", construct, "construct-position",
                                   "%s: constructs at %s and stores size %s; the first free slot is %s" % (where, cs[0][1], new, B + old),
                                   {"where": where})
+            if "G" in only and want_destroy:
+                # SLOTS-G: slots gained by a raw size store hold no object until something is *constructed* there; writing them
+                # through `=` runs an assignment operator on storage without a live object
+                CONSTRUCTING = ("construct_at", "emplace_back", "push_back", "unchecked_emplace_back", "unchecked_push_back", "try_emplace_back",
+                                "try_push_back", "emplace", "insert")
+                any_c = [x for x in evs if x[0] == "C"] + [
+                    y for y in astx.all_exprs(f, into_lambdas=False) if (y.get("k") == "new" and y.get("placement")) or (
+                        y.get("k") == "call" and ((astx.callee(y)[0] or "").startswith("uninitialized_") or astx.callee(y)[0] in CONSTRUCTING))]
+                plain_w = []
+                for y in astx.all_exprs(f, into_lambdas=False):
+                    if y.get("k") == "bin" and y.get("op") == "=":
+                        l0 = astx.strip_casts(y["l"])
+                        while l0 is not None and l0.get("k") == "paren":
+                            l0 = astx.strip_casts(l0.get("e"))
+                        if l0 is not None and ((l0.get("k") == "un" and l0.get("op") == "*") or l0.get("k") == "idx"):
+                            plain_w.append(("W", None, None, y))
+                    elif y.get("k") == "call" and astx.callee(y)[0] in ("fill", "fill_n", "copy", "copy_n", "move_backward", "copy_backward", "generate") \
+                            and len(y["a"]) >= 2:
+                        plain_w.append(("W", None, None, y))
+                    elif y.get("k") == "call" and astx.callee(y)[0] == "move" and len(y["a"]) == 3:
+                        plain_w.append(("W", None, None, y))
+                growing = (ds_.is_const() and ds_.k > 0) or (not ds_.is_const() and all(v >= 0 for v in ds_.c.values()) and ds_.k >= 0 and not (set(ds_.c) & env.signed))
+                if growing:
+                    chk.instance("SLOTS-G")
+                    okg = True if any_c else (False if plain_w else None)
+                    chk.obligation("SLOTS-G", construct, okg)
+                    if okg is False and (key, "g") not in reported:
+                        reported.add((key, "g"))
+                        chk.violation("SLOTS-G", construct, "assigned-not-constructed",
+                                      "%s: the size grows from `%s` to `%s` and the new slots are only assigned to (`%s`): no object is "
+                                      "constructed there, so the assignment operator (and later the destructor) runs on raw storage"
+                                      % (where, old, new, astx.show(plain_w[0][3], 50) if len(plain_w[0]) > 3 and isinstance(plain_w[0][3], dict) else "="),
+                                      {"where": where})
             if "W" not in only:
                 continue
             chk.instance("SLOTS-W")
